@@ -74,6 +74,50 @@ def handle (args : List String) : String :=
       let N := l.length / (dA * dB)
       if idx.any (· ≥ N) then return "bad-op"
       return intListStr (antisymProjectScaled (mats3 dA dB l) dA dB idx)
+  | ["sympart", dA, dB, n, idx, l] => Id.run do
+      -- all entries of the (scaled) symmetric factor for INDEX `idx`, in the order of `symPartKeys`
+      let some dA := dA.toNat? | return "bad-op"
+      let some dB := dB.toNat? | return "bad-op"
+      let some n := n.toNat? | return "bad-op"
+      let some idx := parseNatList? idx | return "bad-op"
+      let some l := parseIntList? l | return "bad-op"
+      if idx.isEmpty || dA = 0 || dB = 0 || l.length ≠ n * dA * dB || idx.any (· ≥ n) then return "bad-op"
+      let mats := mats3 dA dB l
+      return intListStr ((symPartKeys n (dA * dB) idx.length).map fun K => symPartEntry mats dB n idx K)
+  | ["hvec", dA, dB, n, q, idx, l] => Id.run do
+      let some dA := dA.toNat? | return "bad-op"
+      let some dB := dB.toNat? | return "bad-op"
+      let some n := n.toNat? | return "bad-op"
+      let some q := q.toNat? | return "bad-op"
+      let some idx := parseNatList? idx | return "bad-op"
+      let some l := parseIntList? l | return "bad-op"
+      if q = 0 || idx.length < q || dA = 0 || dB = 0 || l.length ≠ n * dA * dB || idx.any (· ≥ n) then return "bad-op"
+      return intListStr (hierVecScaled (mats3 dA dB l) dA dB n q idx)
+  | ["abcvec", dA, dB, dC, t1, t2] => Id.run do
+      let some dA := dA.toNat? | return "bad-op"
+      let some dB := dB.toNat? | return "bad-op"
+      let some dC := dC.toNat? | return "bad-op"
+      let some t1 := parseGIntList? t1 | return "bad-op"
+      let some t2 := parseGIntList? t2 | return "bad-op"
+      if t1.length ≠ dA * dB * dC || t2.length ≠ dA * dB * dC then return "bad-op"
+      let a1 := t1.toArray
+      let a2 := t2.toArray
+      let T1 : Nat → Nat → Nat → GInt := fun a b c => a1.getD ((a * dB + b) * dC + c) 0
+      let T2 : Nat → Nat → Nat → GInt := fun a b c => a2.getD ((a * dB + b) * dC + c) 0
+      return gintListStr (abcVecScaled dA dB dC T1 T2)
+  | ["matabc", cut, dA, dB, dC, t] => Id.run do
+      -- the two matricisations of a (dA,dB,dC) tensor, row-major
+      let some dA := dA.toNat? | return "bad-op"
+      let some dB := dB.toNat? | return "bad-op"
+      let some dC := dC.toNat? | return "bad-op"
+      let some t := parseIntList? t | return "bad-op"
+      if t.length ≠ dA * dB * dC then return "bad-op"
+      let a := t.toArray
+      let T : Nat → Nat → Nat → Int := fun x y z => a.getD ((x * dB + y) * dC + z) 0
+      match cut with
+      | "A_BC" => return intListStr (flat2 dA (dB * dC) (matA_BC dC T))
+      | "AB_C" => return intListStr (flat2 (dA * dB) dC (matAB_C dB T))
+      | _ => return "bad-op"
   | ["hidx", n, rank, k] => Id.run do
       let some n := n.toNat? | return "bad-op"
       let some rank := rank.toNat? | return "bad-op"
